@@ -221,6 +221,11 @@ def splice_body(em_obls, body, fspec, unit, fname, rw):
                         j = match_close(out, j)
                     j += 1
                 pat = text_of(out[k + 1:j]).strip()
+                # `VEC.into_iter()` -> `VEC`
+                sg = [q for q in range(j + 1, bo) if out[q].kind not in ('ws', 'comment', 'doc')]
+                if len(sg) >= 4 and is_p(out[sg[-1]], ')') and is_p(out[sg[-2]], '(') and is_id(out[sg[-3]], 'into_iter') and is_p(out[sg[-4]], '.'):
+                    del out[sg[-4]:bo]
+                    bo = sg[-4]
                 rw.rec('R8b', 'for %s in %s' % (pat, text_of(out[j + 1:bo]).strip()), 'for __e in %s.iter() { let %s = __e.clone();' % (text_of(out[j + 1:bo]).strip(), pat))
                 out[bo + 1:bo + 1] = [T('raw', ' let %s = __e%d.clone();' % (pat, ordinal), out[bo].start)]
                 out[bo:bo] = [T('raw', '.iter() ', out[bo].start)]
